@@ -229,10 +229,11 @@ def _install_link_models_rest(eng):
     eng.overrides[("py7zr.helpers", "is_path_valid")] = lambda e, target, parent: True
 
 
-def damaged_extract(pattern, folders, opts, mode, unroll=1, by_path=False):
+def damaged_extract(pattern, folders, opts, mode, unroll=1, by_path=False, mp=False):
     """mode: 'extractall' (factory), 'paths' (output path stubs incl. the symlink branch), 'testzip'
     by_path: the archive is opened by name, so multi-folder archives take the thread-parallel branch (run with a
-    sequential thread stand-in: one schedule)"""
+    sequential thread stand-in: one schedule); mp: SevenZipFile(..., mp=True) - workers are processes (stand-in: sequential,
+    working on copies of their arguments)"""
     n = len(pattern)
     r = ObResult(bounds="layout %s; one folder's decoded stream damaged from a symbolic offset on; %s; selection symbolic; "
                         "<= %d decoder call(s) per member" % (RC.shape_name(pattern, folders, opts), mode, unroll))
@@ -247,7 +248,7 @@ def damaged_extract(pattern, folders, opts, mode, unroll=1, by_path=False):
         entries, layout = RC.build(e, pattern, folders, opts, sym)
         e.assume(e.range_cond(d, 41))
         try:
-            z, fp, w = X.setup_read(e, entries, layout, intact=False, consume="all-at-once", name=("arch.7z" if by_path else None))
+            z, fp, w = X.setup_read(e, entries, layout, intact=False, consume="all-at-once", name=("arch.7z" if by_path else None), mp=mp)
         except ModelRaise as ex:
             return dict(exc="open:" + ex.name)
         # CRC facts under the damage model (no collisions)
@@ -320,20 +321,20 @@ def damaged_extract(pattern, folders, opts, mode, unroll=1, by_path=False):
 
     def rp(w_):
         return dict(module="vf.props.c04", func="replay_damage", kwargs=dict(
-            pattern=pattern, folders=folders, opts=opts, mode=mode, by_path=by_path,
+            pattern=pattern, folders=folders, opts=opts, mode=mode, by_path=by_path, mp=mp,
             selected=[i for i in range(n) if w_.get("sel%d" % i)] if mode != "testzip" else list(range(n)),
             witness={k_: int(v) for k_, v in w_.items() if isinstance(v, int) and not isinstance(v, bool)}))
 
     def sg(w_):
         chosen = [i for i in range(n) if w_.get("sel%d" % i)]
-        return {"obligation": "damaged_extract", "mode": mode,
+        return {"obligation": "damaged_extract", "mode": mode, "mp": mp,
                 "symlink_member_selected": mode == "paths" and any(pattern[i] == "l" for i in chosen)}
 
     _cex(r, "damaged_extract", rp, signature=sg)
     return r
 
 
-def replay_damage(pattern, folders, opts, mode, selected, witness, by_path=False):
+def replay_damage(pattern, folders, opts, mode, selected, witness, by_path=False, mp=False):
     """damage every selected data member in turn in the concrete counterpart (Copy codec: flip one payload byte) and
     check that the real library never reports success with different content"""
     import os
@@ -365,7 +366,7 @@ def replay_damage(pattern, folders, opts, mode, selected, witness, by_path=False
             if by_path:
                 pth = os.path.join(d, "arch.7z")
                 open(pth, "wb").write(bytes(bad))
-                return py7zr.SevenZipFile(pth)
+                return py7zr.SevenZipFile(pth, mp=mp)
             return py7zr.SevenZipFile(io.BytesIO(bytes(bad)))
 
         try:
@@ -498,6 +499,10 @@ def units(tier):
         for mode in ("extractall", "testzip"):
             us.append(Unit("3.damaged_by_path[%s,%s]" % (RC.shape_name(p, f, o), mode), M, "damaged_extract",
                            dict(pattern=p, folders=f, opts=o, mode=mode, unroll=1, by_path=True), 1800))
+    # mp=True: the workers of the parallel branch are processes
+    for mode in ("extractall", "testzip"):
+        us.append(Unit("3.damaged_by_path_mp[ff/1+1,%s]" % mode, M, "damaged_extract",
+                       dict(pattern="ff", folders=[1, 1], opts={}, mode=mode, unroll=1, by_path=True, mp=True), 1800))
     for n, dfn in [(1, [True]), (2, [True, True]), (2, [False, True]), (2, [True, False])] + ([(3, [False, True, True]), (3, [True, False, True])] if tier == "thorough" else []):
         us.append(Unit("4.packed_test[%s]" % dfn, M, "packed_test", dict(folders_n=n, defined=dfn), 900))
     return us
